@@ -210,34 +210,36 @@ Definition eprio (e : cid * lent) : Z := fst (snd e).
     priority.  (The Go code's [removed]/[replace] indices walk exactly the existing wants
     that phase 1 did not remove.) *)
 Fixpoint phase1 (blockless : cid -> bool) (ex : list (cid * lent)) (ov : list want)
-  : list (cid * want) * list (cid * lent) * list want :=
+  : list ((cid * lent) * want) * list (cid * lent) * list want :=
   match ex, ov with
   | _, [] => ([], ex, [])
   | [], _ => ([], [], ov)
   | w :: ex', o :: ov' =>
       if blockless (fst w)
-      then let '(pr, kept, rest) := phase1 blockless ex' ov' in ((fst w, o) :: pr, kept, rest)
+      then let '(pr, kept, rest) := phase1 blockless ex' ov' in ((w, o) :: pr, kept, rest)
       else let '(pr, kept, rest) := phase1 blockless ex' ov in (pr, w :: kept, rest)
   end.
 
-Fixpoint phase2 (kept : list (cid * lent)) (ov : list want) : list (cid * want) :=
+Fixpoint phase2 (kept : list (cid * lent)) (ov : list want) : list ((cid * lent) * want) :=
   match ov, kept with
   | o :: ov', k :: kept' =>
-      if w_prio o <? eprio k then [] else (fst k, o) :: phase2 kept' ov'
+      if w_prio o <? eprio k then [] else (k, o) :: phase2 kept' ov'
   | _, _ => []
   end.
 
+(** the plan: which existing want is evicted for which newcomer, in the order the code does it *)
 Definition overflow_plan (fl : flags) (g : cfg) (b : list cid) (ledger : list (cid * lent)) (ov : list want)
-  : list (cid * want) :=
+  : list ((cid * lent) * want) :=
   let ovs := isort (fun w => - w_prio w) ov in
   let ex := if f_sort_desc fl then isort (fun e => - eprio e) ledger else isort eprio ledger in
   let '(pr1, kept, rest) := phase1 (fun c => negb (sized fl g b c)) ex ovs in
   pr1 ++ phase2 kept rest.
 
-Definition apply_plan (lim : nat) (s : pst) (plan : list (cid * want)) : pst :=
+Definition apply_plan (lim : nat) (s : pst) (plan : list ((cid * lent) * want)) : pst :=
   fold_left (fun s eo =>
-    let (s1, had) := cancel_want s (fst eo) in
-    let s2 := if had then {| pl := pl s1; inv := inv s1; tasks := adel (tasks s1) (fst eo) |} else s1 in
+    let c := fst (fst eo) in
+    let (s1, had) := cancel_want s c in
+    let s2 := if had then {| pl := pl s1; inv := inv s1; tasks := adel (tasks s1) c |} else s1 in
     fst (ledger_wants lim s2 (w_cid (snd eo)) (w_prio (snd eo), w_block (snd eo))))
   plan s.
 
@@ -285,7 +287,7 @@ Definition notify_peer (fl : flags) (g : cfg) (c : cid) (s : pst) : pst :=
   end.
 
 (** nextEnvelope on all tasks of one peer: blocks, HAVEs, DONT_HAVEs *)
-Definition resp := (list cid * list cid * list cid)%type.
+Notation resp := (list nat * list nat * list nat)%type (only parsing).
 Definition response (b : list cid) (ts : list (cid * task)) : resp :=
   fold_left (fun acc ct =>
     let '(bl, hv, dh) := acc in
